@@ -255,6 +255,17 @@ def t_async():
                 fact("T-TG:entering-an-active-group-again-raises-RuntimeError", False)
             except RuntimeError:
                 fact("T-TG:entering-an-active-group-again-raises-RuntimeError", True)
+        def callee_sees():                     # T-EXCINFO: sys.exception() is the innermost handled exception, callers' included
+            return sys.exception()
+        fact("T-EXCINFO:sys.exception-is-None-when-nothing-is-being-handled", callee_sees() is None)
+        try:
+            raise asyncio.CancelledError()
+        except asyncio.CancelledError as handled:
+            fact("T-EXCINFO:sys.exception-in-a-callee-is-the-exception-its-caller-is-handling", callee_sees() is handled)
+            try:
+                raise KeyError("inner")
+            except KeyError as inner:
+                fact("T-EXCINFO:sys.exception-is-the-innermost-handled-exception", callee_sees() is inner)
         try:                                   # T-LOOP: a thread without an event loop
             await asyncio.to_thread(asyncio.get_event_loop)
             fact("T-LOOP:get_event_loop-raises-RuntimeError-in-a-thread-without-a-loop", False)
